@@ -14,7 +14,7 @@ RULE = ("Program = [EQU defs] ORG o / [label defs] / <directive> / ZZN NOP / [de
         "uniform in 0..65535; EQU ORG SETDP NAM END (with and without operand) and INCLUDE of an empty file as no-byte "
         "directives. Oracle: image = exactly the expected bytes + the sentinel NOP; reserved size (sentinel address - "
         "directive address) = byte count; unrepresentable values rejected. Enumerated: every delimiter x a string "
-        "catalogue, single values on the boundary grid in every spelling, RMB grid; pairs of statements naming one "
+        "catalogue, single values on the boundary grid in every spelling, RMB grid; hex literals with a-f digits in lower and mixed case ($ff, $bEeF) for FCB / FDB (alone, in a list, through an EQU) and RMB; pairs of statements naming one "
         "label below $100 (7 data forms beside 14 data / instruction forms, both orders, label at $10 / $80 / $F0), "
         "each data directive judged on its own bytes. Non-trivial = list length >= 2 or "
         "a negative / symbol element; string with a blank, punctuation or length >= 11; n >= 256; distinct by case hash.")
